@@ -419,6 +419,31 @@ unsafe fn exec(ctxs: &mut HashMap<String, Ctx>, sys: &str, words: &[&str]) -> St
                 };
                 format!("R {}", rc)
             }
+            "upwalk" => {
+                // the user-phrase enumeration read with caller buffers of the given sizes (-1 = NULL, n = n bytes,
+                // guard bytes behind them): the return codes of chewing_userphrase_get, and whether a byte past the
+                // stated size was written
+                chewing_userphrase_enumerate(c);
+                let (mut pl, mut bl): (c_uint, c_uint) = (0, 0);
+                let (a, b) = (int(2), int(3));
+                let mut v = vec![];
+                let mut guard = 0;
+                while chewing_userphrase_has_next(c, &mut pl, &mut bl) == 1 && guard < 40 {
+                    let mut pb = vec![0xAAu8; a.max(0) as usize + 8];
+                    let mut bb = vec![0xAAu8; b.max(0) as usize + 8];
+                    let rc = chewing_userphrase_get(
+                        c,
+                        if a < 0 { null_mut() } else { pb.as_mut_ptr().cast() },
+                        a.max(0) as c_uint,
+                        if b < 0 { null_mut() } else { bb.as_mut_ptr().cast() },
+                        b.max(0) as c_uint,
+                    );
+                    let over = pb[a.max(0) as usize..].iter().any(|x| *x != 0xAA) || bb[b.max(0) as usize..].iter().any(|x| *x != 0xAA);
+                    v.push(format!("{}{}", rc, if over { "!overrun" } else { "" }));
+                    guard += 1;
+                }
+                format!("R {}", v.join(","))
+            }
             "obs" => {
                 // mask: "all" or a comma list of getter numbers; each named getter is called in turn
                 let list: Vec<usize> = if words[2] == "all" { (0..NGET).collect() } else { words[2].split(',').filter_map(|x| x.parse().ok()).collect() };
@@ -692,6 +717,10 @@ fn gen_history(rng: &mut Rng, len: usize, wild: bool, learning: bool) -> Vec<Str
                 if learning {
                     let (p, b) = *rng.pick(&[("測試", "ㄘㄜˋ ㄕˋ"), ("策士", "ㄘㄜˋ ㄕˋ"), ("冊", "ㄘㄜˋ"), ("新酷音", "ㄒㄧㄣ ㄎㄨˋ ㄧㄣ"), ("不對", "ㄅㄨ")]);
                     ops.push(format!("up {} {} {}", rng.pick(&["add", "remove", "lookup", "add"]), hex(p), hex(b)));
+                    if rng.chance(1, 3) {
+                        // read the enumeration back with caller buffers of odd sizes (NULL, empty, too short, ample)
+                        ops.push(format!("upwalk {} {}", rng.pick(&[-1i64, 0, 1, 3, 4, 7, 64]), rng.pick(&[-1i64, 0, 1, 5, 8, 128])));
+                    }
                 } else {
                     ops.push("h Down".into());
                 }
